@@ -42,6 +42,14 @@ def run_ops(ops):
             w = int(f[1])
             if wi is None or w >= n:
                 continue
+            if f[0] == 'B':
+                # a burst of tasks of zero duration: large counts
+                for _ in range(int(f[2])):
+                    t = mu.TimeIt(wi.worker_working_time, w, own[w], lambda: '')
+                    t.__enter__()
+                    t.__exit__(None, None, None)
+                    wi.update_n_completed_tasks(w)
+                continue
             if f[0] == 'T':
                 arg = '' if f[3] == '_' else f[3]
                 t = mu.TimeIt(wi.worker_working_time, w, own[w], lambda arg=arg: arg)     # worker.py 424
@@ -70,7 +78,7 @@ def run_ops(ops):
         mi.NonPickledSyncManager, mi.time, mu.time = saved
 
 
-def gen_ops(rng):
+def gen_ops(rng, big=False):
     ops = []
     n = 0
     k = 0
@@ -85,6 +93,9 @@ def gen_ops(rng):
             k += 1
             # few distinct durations: ties, and tasks no longer than the shortest entry kept
             ops.append('T:%d:%d:%s' % (w, rng.choice([0, 1, 2, 3, 5, 8, rng.randint(1, 30)]), rng.choice(['_', 'a%d' % k, 'a%d' % k, 'b'])))
+        elif r < .72 and big:
+            # counts beyond what fits 16 and 32 bits signed / unsigned stay exact (a counter lives as long as the pool's workers)
+            ops.append('B:%d:%d' % (w, rng.choice([32767, 32768, 40000, 65535, 65536, 70000])))
         elif r < .8:
             ops.append('Y:%d' % w)
         elif r < .92:
